@@ -2,6 +2,6 @@
 from contracts.C06_run_checks import ArrayCollect, ArrayCollectPrefix, ArrayRunChecks, ColumnRunChecks, ContainerRunChecks
 from contracts.C19_check_options import ApplyField, PostprocessField, PreprocessField, RunCheck
 from contracts.C03_container_validate import ContainerValidate  # every parser and the whole core-check pipeline run on every validate
-from contracts.C04_field_validate import ArrayValidate
+from contracts.C04_field_validate import ArrayValidate, IndexValidate  # the index is judged as the series of its own values AND dtype
 
-CONTRACTS = [ArrayCollect, ArrayCollectPrefix, ArrayRunChecks, ColumnRunChecks, ContainerRunChecks, PreprocessField, ApplyField, PostprocessField, RunCheck, ContainerValidate, ArrayValidate]
+CONTRACTS = [ArrayCollect, ArrayCollectPrefix, ArrayRunChecks, ColumnRunChecks, ContainerRunChecks, PreprocessField, ApplyField, PostprocessField, RunCheck, ContainerValidate, ArrayValidate, IndexValidate]
